@@ -201,6 +201,6 @@ def check_case(case):
 
 def run(tier="quick", seed=0):
     r = common.run("bounded.C15", cases(tier, seed), bound="intervals <=6 candidates, BT tables <=6 candidates (720 rankings), slate sizes <=3x3",
-                   rule=RULE, budget_s=150 if tier == "quick" else 1200)
+                   rule=RULE, budget_s=600 if tier == "quick" else 1200)
     r["assumptions"].append("machine floats compared with exact rationals up to relative 1e-9 (A-FLOAT)")
     return r
